@@ -64,22 +64,29 @@ func (s *unicastSubjectImpl[T]) SubscribeWithContext(subscriberCtx context.Conte
 
 	verifPoint("subject_unicast:SubscribeWithContext:lock#0", s)
 	s.mu.Lock()
-	defer verifPoint("subject_unicast:SubscribeWithContext:ret#0", s)
-	defer s.mu.Unlock()
 
 	switch s.status {
 	case KindNext:
 		// fallthrough
 	case KindError:
 		subscription.ErrorWithContext(s.err.A, s.err.B)
+		s.mu.Unlock()
+		verifPoint("subject_unicast:SubscribeWithContext:unlocked#1", s)
+
 		return subscription
 	case KindComplete:
 		subscription.CompleteWithContext(subscriberCtx)
+		s.mu.Unlock()
+		verifPoint("subject_unicast:SubscribeWithContext:unlocked#2", s)
+
 		return subscription
 	}
 
 	if s.observer != nil {
 		subscription.ErrorWithContext(subscriberCtx, ErrUnicastSubjectConcurrent)
+		s.mu.Unlock()
+		verifPoint("subject_unicast:SubscribeWithContext:unlocked#3", s)
+
 		return subscription
 	}
 
@@ -91,10 +98,17 @@ func (s *unicastSubjectImpl[T]) SubscribeWithContext(subscriberCtx context.Conte
 
 	s.observer = subscription
 
+	s.mu.Unlock()
+	verifPoint("subject_unicast:SubscribeWithContext:unlocked#4", s)
+
+	// The teardown takes the subject mutex and runs at once when the subscriber is already
+	// closed (e.g. it unsubscribed while the backlog was replayed): it must be added out of the lock.
 	subscription.Add(func() {
 		verifPoint("subject_unicast:SubscribeWithContext:lock#1", s)
 		s.mu.Lock()
-		s.observer = nil
+		if s.observer == Observer[T](subscription) {
+			s.observer = nil
+		}
 		s.mu.Unlock()
 		verifPoint("subject_unicast:SubscribeWithContext:unlocked#0", s)
 	})
